@@ -175,4 +175,134 @@ theorem C06_extend_list_rejects (o : Opts) (es : List ExtEntry) (e : ExtEntry) (
       · obtain ⟨y, hy⟩ := ih hr
         rw [hy]; exact ⟨y, rfl⟩
 
+/-! ### `map … | FUNC` and `default FUNC` are attached to exactly the configured field / method (`Gv.Settings.parseMethodLine`) -/
+
+theorem beq_comm_false {a b : S} (h : (a == b) = false) : (b == a) = false := by
+  cases hb : b == a with
+  | false => rfl
+  | true =>
+    have : b = a := by simpa using hb
+    subst this
+    simp at h
+
+open Gv.Settings in
+theorem lookup_map_upd_ne (t n : S) (g : FieldMapping → FieldMapping) (hn : (n == t) = false) :
+    ∀ fs : List (S × FieldMapping),
+      (fs.map (fun p => if p.1 == t then (p.1, g p.2) else p)).lookup n = fs.lookup n := by
+  intro fs
+  induction fs with
+  | nil => rfl
+  | cons p rest ih =>
+    obtain ⟨k, v⟩ := p
+    cases hk : k == t with
+    | true =>
+      have hkt : k = t := by simpa using hk
+      subst hkt
+      simp only [List.map_cons, hk, if_true, List.lookup_cons, hn]
+      exact ih
+    | false =>
+      simp only [List.map_cons, hk, Bool.false_eq_true, if_false, List.lookup_cons]
+      cases hnk : n == k with
+      | true => rfl
+      | false => exact ih
+
+theorem lookup_append_ne {β} (t n : S) (x : β) (hn : (n == t) = false) :
+    ∀ fs : List (S × β), (fs ++ [(t, x)]).lookup n = fs.lookup n := by
+  intro fs
+  induction fs with
+  | nil => simp [List.lookup, hn]
+  | cons p rest ih =>
+    obtain ⟨k, v⟩ := p
+    simp only [List.cons_append, List.lookup_cons]
+    cases hnk : n == k with
+    | true => rfl
+    | false => exact ih
+
+open Gv.Settings in
+theorem lookup_map_upd_eq (t : S) (g : FieldMapping → FieldMapping) :
+    ∀ fs : List (S × FieldMapping),
+      (fs.map (fun p => if p.1 == t then (p.1, g p.2) else p)).lookup t = (fs.lookup t).map g := by
+  intro fs
+  induction fs with
+  | nil => rfl
+  | cons p rest ih =>
+    obtain ⟨k, v⟩ := p
+    cases hk : k == t with
+    | true =>
+      have hkt : k = t := by simpa using hk
+      subst hkt
+      simp [List.lookup_cons, hk]
+    | false =>
+      have htk := beq_comm_false hk
+      simp only [List.map_cons, hk, Bool.false_eq_true, if_false, List.lookup_cons, htk]
+      exact ih
+
+theorem lookup_none_of_not_any {β} (t : S) :
+    ∀ fs : List (S × β), (fs.any (fun p => p.1 == t)) = false → fs.lookup t = none := by
+  intro fs
+  induction fs with
+  | nil => intro _; rfl
+  | cons p rest ih =>
+    obtain ⟨k, v⟩ := p
+    intro h
+    simp only [List.any_cons, Bool.or_eq_false_iff] at h
+    have htk := beq_comm_false h.1
+    simp only [List.lookup_cons, htk]
+    exact ih h.2
+
+theorem lookup_append_new {β} (t : S) (x : β) :
+    ∀ fs : List (S × β), (fs.any (fun p => p.1 == t)) = false → (fs ++ [(t, x)]).lookup t = some x := by
+  intro fs
+  induction fs with
+  | nil => intro _; simp [List.lookup]
+  | cons p rest ih =>
+    obtain ⟨k, v⟩ := p
+    intro h
+    simp only [List.any_cons, Bool.or_eq_false_iff] at h
+    have htk := beq_comm_false h.1
+    simp only [List.cons_append, List.lookup_cons, htk]
+    exact ih h.2
+
+open Gv.Settings in
+/-- a field setting written for target field `t` changes the mapping of `t` only: every other field keeps its source, its
+ignore mark and its function -/
+theorem C06_map_function_only_at_its_field (fs : List (S × FieldMapping)) (t n : S) (g : FieldMapping → FieldMapping)
+    (hn : (n == t) = false) : (updField fs t g).lookup n = fs.lookup n := by
+  unfold updField
+  split
+  · exact lookup_map_upd_ne t n g hn fs
+  · exact lookup_append_ne t n _ hn fs
+
+open Gv.Settings in
+/-- and the mapping of `t` is the updated one (a fresh mapping when the field had none) -/
+theorem C06_map_function_at_its_field (fs : List (S × FieldMapping)) (t : S) (g : FieldMapping → FieldMapping) :
+    (updField fs t g).lookup t = some (g ((fs.lookup t).getD {})) := by
+  unfold updField
+  cases hany : fs.any (fun p => p.1 == t) with
+  | true =>
+    simp only [if_true]
+    rw [lookup_map_upd_eq]
+    cases hl : fs.lookup t with
+    | some v => rfl
+    | none =>
+      exfalso
+      clear g
+      induction fs with
+      | nil => simp at hany
+      | cons p rest ih =>
+        obtain ⟨k, v⟩ := p
+        simp only [List.any_cons, Bool.or_eq_true] at hany
+        simp only [List.lookup_cons] at hl
+        cases htk : t == k with
+        | true => simp [htk] at hl
+        | false =>
+          simp only [htk] at hl
+          rcases hany with h1 | h2
+          · have := beq_comm_false htk; simp [this] at h1
+          · exact ih h2 hl
+  | false =>
+    simp only [Bool.false_eq_true, if_false]
+    rw [lookup_none_of_not_any t fs hany, lookup_append_new t _ fs hany]
+    rfl
+
 end Gv.Props.C06
